@@ -128,8 +128,16 @@ class World:
         e = self.env()
         head = sh(["git", "--git-dir", os.path.join(self.dir, "netspoc.git"), "show", "HEAD:topology"], self.dir, e,
                   check=False).strip()
+        # the newest revision of the repository history that compiles (walking back from the head)
+        gd = ["git", "--git-dir", os.path.join(self.dir, "netspoc.git")]
+        best = ""
+        for h in sh(gd + ["log", "--topo-order", "--format=%H", "HEAD"], self.dir, e, check=False).split():
+            t = sh(gd + ["show", h + ":topology"], self.dir, e, check=False).strip()
+            if t and "BAD" not in t:
+                best = t
+                break
         return {"cur": cur, "curContent": content(cur) if cur else "", "head": head,
-                "headGood": "BAD" not in head,
+                "headGood": "BAD" not in head, "best": best,
                 "dirs": sorted(d for d in os.listdir(db) if re.match(r"p\d+$|next$", d)),
                 "failed": os.path.exists(os.path.join(db, "failed"))}
 
